@@ -83,7 +83,7 @@ def o_into_iter(ev, st, t, site):
     v = _deref(st, _arg(ev, st, t, 0))
     if v is None:
         return False
-    if v[0] in ("iterv", "enum", "arr", "flat"):
+    if v[0] in ("iterv", "enum", "arr", "flat", "fromfn", "mapped"):
         return _set_dest(st, t, v)
     if v[0] == "seq":
         return _set_dest(st, t, ("iterv", v[1], 0))
@@ -126,6 +126,24 @@ def _step(ev, st, it):
         if item is None:
             return None, it
         return tup(("const", str(it[2])), item), ("enum", inner, it[2] + 1)
+    if it[0] == "fromfn":
+        r = _call_closure(ev, st, it[1], [])
+        r = _deref(st, r)
+        if r is None or r[0] != "variant" or r[1] not in ("Some", "None"):
+            return False, it
+        if r[1] == "None":
+            return None, it
+        return dict(r[2]).get(0), it
+    if it[0] == "mapped":
+        item, inner = _step(ev, st, it[1])
+        if item is False:
+            return False, it
+        if item is None:
+            return None, ("mapped", inner, it[2])
+        r = _call_closure(ev, st, it[2], [item])
+        if r is None:
+            return False, it
+        return r, ("mapped", inner, it[2])
     if it[0] == "flat":
         cur = it[1]
         while True:
@@ -148,7 +166,7 @@ def o_next(ev, st, t, site):
     if raw is None or raw[0] not in ("refmut", "ref"):
         return False
     it = st.get(raw[1])
-    if it is None or it[0] not in ("iterv", "enum", "arr", "flat"):
+    if it is None or it[0] not in ("iterv", "enum", "arr", "flat", "fromfn", "mapped"):
         return False
     item, new = _step(ev, st, it)
     if item is False:
@@ -167,7 +185,18 @@ def _call_closure(ev, st, closure_val, args):
     body = facts.fns.get(key)
     if body is None:
         return None
-    u = facts.unit(body, expand=True)
+    # the closure body with every crate-local callee spliced in (its effects on captured lists must be visible)
+    import inline
+    if not hasattr(facts, "_closure_units"):
+        facts._closure_units = {}
+    pats = tuple(rx.pattern for rx, _ in ev.raw) + tuple(rx.pattern for rx, _ in ev.oracles)
+    if (key, pats) not in facts._closure_units:
+        def want(ck, raw):
+            # callees an oracle gives a meaning to stay calls
+            n = norm(ck)
+            return "::_::" not in ck and not any(rx.search(n) or rx.search(ck) for rx, _ in ev.raw) and not any(rx.search(n) or rx.search(ck) for rx, _ in ev.oracles)
+        facts._closure_units[(key, pats)] = inline.inline(facts, body, 3, want, expand=True)
+    u = facts._closure_units[(key, pats)]
     env = cv
     if len(u.locals) > 1 and u.locals[1].startswith("&"):
         env = ("refval", cv)
@@ -191,8 +220,16 @@ def _call_closure(ev, st, closure_val, args):
         if isinstance(k, int) and k < 0:
             state[k] = v
     sub = AbsPaths(u, limit=4000, oracles=ev.oracle_specs, raw_oracles=ev.raw_specs)
-    outs = {v for (v, _) in sub.outcomes(state=state)}
-    return outs.pop() if len(outs) == 1 else None
+    heap = sorted(k for k in state if isinstance(k, int) and k < 0)
+    outs = sub.outcomes(state=state, extra_keys=tuple(heap))
+    if len(outs) != 1:
+        return None
+    (v, _, extras) = next(iter(outs)) if heap else (next(iter(outs)) + ((),))
+    # the closure may have changed the lists it captured (e.g. `|| addresses.pop()`): carry the effect over
+    for k, hv in zip(heap, extras):
+        if hv is not None:
+            st[k] = hv
+    return v
 
 
 def o_position(ev, st, t, site):
@@ -311,6 +348,29 @@ def o_get(ev, st, t, site):
     return _set_dest(st, t, some(("refval", lst[idx])) if idx < len(lst) else NONE)
 
 
+def o_extend(ev, st, t, site):
+    """`list.extend(iter)`: the iterator is run to its end, every item appended in order."""
+    lid, lst = _list_of(st, _arg(ev, st, t, 0))
+    it = _deref(st, _arg(ev, st, t, 1))
+    if lid is None or it is None:
+        return False
+    if it[0] == "seq":
+        it = ("iterv", it[1], 0)
+    elif it[0] == "variant" and it[1] == "[]":
+        it = ("arr", tuple(x for _, x in it[2]), 0)
+    if it[0] not in ("iterv", "enum", "arr", "flat", "fromfn", "mapped"):
+        return False
+    for _ in range(64):
+        item, it = _step(ev, st, it)
+        if item is False:
+            return False
+        if item is None:
+            return _set_dest(st, t, tup())
+        _, lst = _list_of(st, ("seq", lid))
+        st[-lid] = ("list", tuple(lst + [_deref(st, item) if item[0] in ("ref", "refmut") else item]))
+    return False
+
+
 def o_len(ev, st, t, site):
     lid, lst = _list_of(st, _arg(ev, st, t, 0))
     if lid is None:
@@ -348,6 +408,7 @@ RAW_ORACLES = [
     (r"VecDeque.*::push_front$", o_push_front),
     (r"VecDeque.*::push_back$|Vec.*::push$", o_push_back),
     (r"VecDeque.*::pop_front$", o_pop_front),
+    (r"VecDeque.* as std::iter::Extend.*::extend$|Vec.* as std::iter::Extend.*::extend$", o_extend),
     (r"VecDeque.*::insert$|Vec.*::insert$", o_insert),
     (r"VecDeque.*::retain(_mut)?$|Vec.*::retain(_mut)?$", o_retain),
     (r"VecDeque.*::get$", o_get),
